@@ -9,7 +9,7 @@
 # self-test: every stored seeded violation of this property is applied to a
 # scratch worktree of /repo's HEAD (outside /repo and /verif, removed
 # afterwards) and the check must report it; every stored behaviour-preserving
-# refactoring written for this property (benign/<id>r/, benign/<id>s/, benign/<id>t/, benign/<id>u/, benign/<id>v/, benign/X0<n>w/, benign/hand/) is applied
+# refactoring written for this property (benign/<id>r/, benign/<id>s/, benign/<id>t/, benign/<id>u/, benign/<id>v/, benign/X0<n>w/, benign/X0<n>x/, benign/hand/) is applied
 # the same way and the check must stay silent. A self-test miss or false alarm
 # means the checker regressed: exit 2, not a verdict about /repo.
 set -u
@@ -64,7 +64,7 @@ done
 # ---- thorough: behaviour-preserving edits written for this property must leave it silent
 bresults="[]"
 alarm=0
-for d in "$VERIF"/benign/"$PROP"r/*.diff "$VERIF"/benign/"$PROP"s/*.diff "$VERIF"/benign/"$PROP"t/*.diff "$VERIF"/benign/"$PROP"u/*.diff "$VERIF"/benign/"$PROP"v/*.diff "$VERIF"/benign/X0?w/*.diff "$VERIF"/benign/hand/*.diff; do
+for d in "$VERIF"/benign/"$PROP"r/*.diff "$VERIF"/benign/"$PROP"s/*.diff "$VERIF"/benign/"$PROP"t/*.diff "$VERIF"/benign/"$PROP"u/*.diff "$VERIF"/benign/"$PROP"v/*.diff "$VERIF"/benign/X0?w/*.diff "$VERIF"/benign/X0?x/*.diff "$VERIF"/benign/hand/*.diff; do
   [ -f "$d" ] || continue
   bid="$(basename "$(dirname "$d")")/$(basename "$d" .diff)"
   # patches this property's check is known not to see through (DESIGN.md §7): listed, not run
